@@ -43,7 +43,10 @@ func (c12NoSender) RequestBlock(context.Context, hotstuff.Hash) (*hotstuff.Block
 }
 
 // the replica used by harness/internal/proto/hotstuffpb/c12_test.go (keep in sync)
-func c12ServerPropose(p *hotstuffpb.Proposal, peer hotstuff.ID, kauri bool) hotstuff.ProposeMsg {
+func c12ServerPropose(p *hotstuffpb.Proposal, peer hotstuff.ID, kauri bool) (hotstuff.ProposeMsg, bool) {
+	if p.GetBlock() == nil {
+		return hotstuff.ProposeMsg{}, false // dropped
+	}
 	id := peer
 	if kauri {
 		id = p.ProposerID()
@@ -51,7 +54,7 @@ func c12ServerPropose(p *hotstuffpb.Proposal, peer hotstuff.ID, kauri bool) hots
 	p.Block.Proposer = uint32(id)
 	m := hotstuffpb.ProposalFromProto(p)
 	m.ID = id
-	return m
+	return m, true
 }
 func c12ServerTimeout(p *hotstuffpb.TimeoutMsg, peer hotstuff.ID) hotstuff.TimeoutMsg {
 	m := hotstuffpb.TimeoutMsgFromProto(p)
@@ -157,13 +160,34 @@ func TestVerifC12(t *testing.T) {
 				pb1, pb2 := &hotstuffpb.Proposal{}, &hotstuffpb.Proposal{}
 				_ = proto.Unmarshal(bs, pb1)
 				_ = proto.Unmarshal(bs, pb2)
+				noBlock := r.Intn(12) == 0
+				if noBlock { // a message without a block: the handler must deliver nothing
+					pb1.Block, pb2.Block = nil, nil
+				}
 				gotP = nil
-				impl.Propose(c12Ctx(pr), pb1)
+				panicked := false
+				func() {
+					defer func() {
+						if recover() != nil {
+							panicked = true
+						}
+					}()
+					impl.Propose(c12Ctx(pr), pb1)
+				}()
 				drain()
-				want := c12ServerPropose(pb2, pr, kauri)
-				meta := map[string]any{"msg": "proposal", "peer": uint32(pr), "proposer": uint32(p.Block.Proposer()), "kauri": kauri, "view": uint64(view)}
-				v.Seen(fmt.Sprintf("P|%v|%d|%x", kauri, pr, bs), true, meta)
+				want, delivered := c12ServerPropose(pb2, pr, kauri)
+				meta := map[string]any{"msg": "proposal", "peer": uint32(pr), "proposer": uint32(p.Block.Proposer()), "kauri": kauri, "view": uint64(view), "no_block": noBlock}
+				v.Seen(fmt.Sprintf("P|%v|%d|%v|%x", kauri, pr, noBlock, bs), true, meta)
 				v.Count(fmt.Sprintf("proposal.kauri=%v", kauri))
+				if panicked {
+					v.Oracle(false, "server.propose:panic", "the Propose handler panicked", meta)
+					continue
+				}
+				if !delivered {
+					v.Count("proposal.no-block")
+					v.Oracle(len(gotP) == 0, "server.propose:differs-from-harness-replica", "a proposal without a block was delivered", meta)
+					continue
+				}
 				if len(gotP) != 1 {
 					v.Oracle(false, "server.propose:not-delivered-once", fmt.Sprintf("%d ProposeMsg events for one Propose call", len(gotP)), meta)
 					continue
